@@ -116,6 +116,17 @@ package environment
 //@   loop 3 invariant len(filteredWeights) > 0 ==> #i >= 0 && filteredWeights[len(filteredWeights) - 1] <= allWeights[#i]
 //@   loop 4 invariant #i >= -1 && awaitedAt <= #i && tasksAt <= #i && sortedW(filteredWeights) && fresh(filteredWeights)
 
+// C09 ("several hooks failing at the same point are reported together without harming the core"): the goroutine that
+// collects the outcomes of the task hooks of one moment stops a hook's timeout timer only if it has just found that timer
+// in the timers map. An entry is gone once the hook timed out (or was already collected); the termination event of such
+// a hook may still arrive while other hooks are pending, and Stop on the nil *time.Timer of a missing entry is a panic in
+// a goroutine of its own - the end of the core.
+//@ closure (*Environment).runTasksAsHooks #2
+//@   property C09
+//@   ghostvar have bool = false
+//@   on lookup var.hookTimers : have = result1
+//@   on call (*time.Timer).Stop : assert have
+
 // ---------------------------------------------------------------------------------------------------------
 // C01 / C02 / C09: TryTransition fires the FSM event only while holding transitionMutex (released by a deferred Unlock),
 // after the transition's own check; the transition body runs only for an event that was not cancelled and any error it
